@@ -39,6 +39,7 @@ RULE = (
     "order can matter); distinct = distinct (configuration, D-window) resp. distinct (helper, input)"
 )
 ASSUMPTIONS = [
+    "two-datasets-alive histories: after the index-word exploration a second dataset object of the same class is built from different labels (as the trainer does for the validation set) and read; every index of the first dataset must still return its own first-read sample (state shared between dataset objects)",
     "label sets: 2-3 frames x <= 2 user animals (+ <= 1 predicted) x 3 nodes, visibility patterns per instance from the "
     "full 3-bit alphabet (quick: a stated sub-grid, thorough: all pairs); 40x56 uint8 frames; every frame holds at least "
     "one user instance (a frame with only predicted instances is outside the alphabet)",
@@ -413,7 +414,7 @@ def viol(part, case, msg):
     part.violation(case, msg)
 
 
-def explore_config(part, path, spec, cfg, D, rot, tmp):
+def explore_config(part, path, spec, cfg, D, rot, tmp, other_path=None):
     """All call sequences of length <= D for one configuration."""
     key = f"{spec['id']}|{cfg['cls']}|{cfg['anchor']}|{int(cfg['np_chunks'])}|{int(cfg['uio'])}|{cfg['scale']}"
     base = {"part": "b", "spec": spec, "cfg": cfg}
@@ -503,6 +504,38 @@ def explore_config(part, path, spec, cfg, D, rot, tmp):
                 viol(part, dict(base, history=seq), f"len(dataset) became {len(ds)} after {seq}")
         except Exception as e:
             viol(part, dict(base, history=seq), f"len raised {type(e).__name__}: {e}")
+    # pass 3: a SECOND dataset object of the same class is built from different labels (as the trainer does for the
+    # validation set) while the first ones are alive; every index of the first datasets is then read again
+    if other_path is not None:
+        try:
+            other = make_dataset(other_path, cfg, tempfile.mkdtemp(dir=tmp))
+            n_other = len(other[0])
+            for j in range(n_other):
+                other[0][j]
+        except Exception as e:
+            other, n_other = None, 0
+            part.add("b_companion_dataset_not_buildable")
+        if other is not None:
+            part.add("b_companion_datasets_built")
+            for r in sorted(arcs):
+                ds = dsets[r][0]
+                for i in range(n):
+                    case = dict(base, history=[r, "construct+read(companion dataset)", i])
+                    part.count()
+                    part.transition()
+                    try:
+                        smp = ds[i]
+                    except Exception as e:
+                        viol(part, case, f"__getitem__({i}) raised {type(e).__name__} after a second dataset was built: {e}")
+                        break
+                    if dg(smp) != ref_dg[i]:
+                        viol(part, case, f"sample {i} differs from this dataset's own first read after ANOTHER dataset object was built and read: {sample_diff(smp, refs[i])}")
+                break  # one of the first datasets suffices (they are equivalent by pass 1/2)
+            try:
+                for v in other[1].videos:
+                    v.close()
+            except Exception:
+                pass
     part.maxi("max_distinct_states_per_configuration", len(states))
     part.add("b_words_of_length_D", n**D)
     part.sample(dict(base, history=arcs[min(arcs)]), nt_cfg)
@@ -862,6 +895,10 @@ def exec_a(spec, label_paths=None):
 # workers
 
 
+COMPANION_TWO = {"id": "COMP2", "frames": [{"user": [["C", 7], ["P", 7]]}, {"user": [["B", 7]]}, {"user": [["A", 7], ["C", 5]]}]}
+COMPANION_SINGLE = {"id": "COMP1", "frames": [{"user": [["B", 7]]}, {"user": [["P", 7]]}, {"user": [["A", 6]]}]}
+
+
 def work(part, shard):
     tmp = tempfile.mkdtemp(prefix="c11_")
     try:
@@ -897,10 +934,13 @@ def work(part, shard):
             else:
                 _, spec, fam, tier, D, rot = item
                 path = LS.write(tmp, spec, "ls_" + spec["id"])
+                # companion labels (different animals / positions / frame count) for the two-datasets-alive histories
+                comp = COMPANION_SINGLE if fam.startswith("single") else COMPANION_TWO
+                other_path = LS.write(tmp, comp, "comp_" + spec["id"])
                 part.add("b_label_sets")
                 for cfg in LS.configs(spec, fam, tier):
                     try:
-                        explore_config(part, path, spec, cfg, D, rot, tmp)
+                        explore_config(part, path, spec, cfg, D, rot, tmp, other_path)
                     except Exception:
                         part.violation({"part": "b", "spec": spec, "cfg": cfg, "history": [], "harness_exception": True}, "explorer raised:\n" + traceback.format_exc())
                         part.add("harness_errors")
@@ -909,10 +949,12 @@ def work(part, shard):
                     p = os.path.join(tmp, f)
                     if os.path.isdir(p) and f.startswith("tmp"):
                         shutil.rmtree(p, ignore_errors=True)
-                try:
-                    os.remove(path)
-                except OSError:
-                    pass
+                shutil.rmtree(os.path.join(tmp, "comp_" + spec["id"] + "_frames"), ignore_errors=True)
+                for pth in (path, other_path):
+                    try:
+                        os.remove(pth)
+                    except OSError:
+                        pass
     finally:
         shutil.rmtree(tmp, ignore_errors=True)
 
@@ -974,7 +1016,23 @@ def replay(case):
             shown = {k: (_np(v).tolist() if k != "labels" and _np(v).size <= 24 else "<large>") for k, v in w.items()}
             err, out = exec_a(spec, label_paths)
             return {"spec": spec, "arguments_before": shown, "error": err, "violates": err is not None}
-        spec, cfg, history = case["spec"], case["cfg"], [int(i) for i in case.get("history", [])]
+        spec, cfg = case["spec"], case["cfg"]
+        raw_hist = list(case.get("history", []))
+        if any(isinstance(h, str) for h in raw_hist):
+            # two-datasets-alive history: [first index, "construct+read(companion dataset)", index]
+            path = LS.write(tmp, spec, "ls")
+            fam_single = cfg["cls"] == "SingleInstance"
+            other_path = LS.write(tmp, COMPANION_SINGLE if fam_single else COMPANION_TWO, "comp")
+            ds, labels, snap = make_dataset(path, cfg, tempfile.mkdtemp(dir=tmp))
+            r, i = int(raw_hist[0]), int(raw_hist[-1])
+            ds[r]
+            ref = ds[i]
+            other = make_dataset(other_path, cfg, tempfile.mkdtemp(dir=tmp))
+            for j in range(len(other[0])):
+                other[0][j]
+            d = sample_diff(ds[i], ref)
+            return {"history": raw_hist, "difference": d, "violates": bool(d)}
+        history = [int(i) for i in raw_hist]
         path = LS.write(tmp, spec, "ls")
         exp = LS.expected(spec, cfg["cls"], cfg["uio"])
         obs = {"expected_len": len(exp), "errors": [], "history": history}
